@@ -404,6 +404,42 @@ class CircuitGraph(object):
 
         return set(series)
 
+    def series_signs(self, cpt_name):
+        """Return dict mapping the names of the components in series
+        with cpt to +1 if they have the same orientation as cpt along
+        the chain and to -1 otherwise."""
+
+        cct = self.cct
+
+        def nodes(name):
+            return [cct.node_map[node_name]
+                    for node_name in cct.elements[name].node_names[0:2]]
+
+        signs = {cpt_name: 1}
+        for node, direction in ((nodes(cpt_name)[1], 1),
+                                (nodes(cpt_name)[0], -1)):
+            prev = cpt_name
+            while len(self.G[node]) == 2:
+                others = [(n, e['name']) for n, e in self.G[node].items()
+                          if e['name'] != prev]
+                if len(others) != 1:
+                    break
+                far, name = others[0]
+                if name in signs or name not in cct.elements:
+                    break
+                signs[name] = direction if nodes(name)[0] == node else -direction
+                node, prev = far, name
+        return signs
+
+    def parallel_signs(self, cpt_name, names):
+        """Return dict mapping names to +1 if the component has the same
+        orientation as cpt and to -1 otherwise."""
+
+        cct = self.cct
+        n1 = cct.node_map[cct.elements[cpt_name].node_names[0]]
+        return dict((name, 1 if cct.node_map[cct.elements[name].node_names[0]] == n1 else -1)
+                    for name in names)
+
     def in_parallel(self, cpt_name):
         """Return set of component names in parallel with cpt including itself."""
 
@@ -412,6 +448,10 @@ class CircuitGraph(object):
         node_names = [cct.node_map[node_name] for node_name in elt.node_names]
 
         n1, n2 = node_names[0:2]
+
+        if n1 == n2:
+            # A short-circuited component is not in parallel with anything.
+            return set((cpt_name, ))
 
         # This is trivial for a multigraph but a mutigraph adds
         # additional problems since component() will fail if have
